@@ -11,6 +11,7 @@ import YowsupVerif.Drv.Media
 import YowsupVerif.Drv.Reg
 import YowsupVerif.Drv.Config
 import YowsupVerif.Drv.Iq
+import YowsupVerif.Drv.Routing
 open Yow Yow.Drv
 
 structure DrvState where
@@ -25,6 +26,7 @@ def step (s : DrvState) (line : String) : DrvState × String :=
   | "seg" :: rest => let r := segStep s.seg rest; ({ s with seg := r.1 }, r.2)
   | "coder" :: rest => (s, coderStep rest)
   | "iq" :: rest => let r := iqStep s.iq rest; ({ s with iq := r.1 }, r.2)
+  | "route" :: rest => (s, routingStep rest)
   | "cfg" :: rest => (s, configStep rest)
   | "reg" :: rest => (s, regStep rest)
   | "media" :: rest => (s, mediaStep rest)
